@@ -404,6 +404,11 @@ func runC20(c *Ctx) {
 	sort.Strings(rest)
 	c.extra["always_citing_evaluators"] = rest
 	c.Min("L4-always-cites", 6)
+	// an arithmetic fault cites a position because every + - * / is computed by the core
+	// function of that operator, whose error the evaluator wraps with its own position; an
+	// operation computed in place (a raw integer division panics on zero) would surface
+	// through some recover with another position or none
+	c.ruleE1("L4-arithmetic-through-core")
 	_ = types.Typ
 }
 
